@@ -503,7 +503,14 @@ pub fn run(args: &Args) -> Report {
         }
         match catching(|| run_seq(&ops, 0)) {
             Ok(None) => {}
-            Ok(Some((i, sig, d))) => found.lock().unwrap().push((sig, format!("op #{i}: {d}"), json!({"ops": opj(&ops[..=i.min(len - 1)])}))),
+            Ok(Some((i, sig, d))) => {
+                let small = shrink_seq(ops[..=i.min(len - 1)].to_vec(), |t| matches!(catching(|| run_seq(t, 0)), Ok(Some((_, s2, _))) if s2 == sig));
+                let d2 = match catching(|| run_seq(&small, 0)) {
+                    Ok(Some((j, _, d2))) => format!("op #{j}: {d2}"),
+                    _ => format!("op #{i}: {d}"),
+                };
+                found.lock().unwrap().push((sig, d2, json!({"ops": opj(&small), "shrunk_from_len": i + 1})))
+            }
             Err(p) => found.lock().unwrap().push((format!("C18:panic:{}", panic_site(&p)), p, json!({"ops": opj(&ops)}))),
         }
     }
